@@ -256,6 +256,27 @@ def run(ctx):
     for (clause, key), (n, s, msg) in sorted(viol.items()):
         res.add(Finding('C02', clause, kinds[clause], cl.file, cl.qualname, cl.node.lineno, 'output replay: ' + key, msg,
                         witness=d.path_to(n, s), entry=cl.qualname, exit=rm.exit_kind(n)))
+    # ---- C02.m fallback aliases are honoured in whatever iterable form they were given: the package's own "is iterable" test is the
+    # definition (iter() succeeds), not a list of accepted types
+    cm2 = res.clause('C02.m', 'R-DECISION', 'fallback aliases: every iterable counts (the iterable test is `iter(x)` succeeding)', floor=1)
+    isit = None
+    for m_ in ctx.repo.modules.values():
+        if 'is_iterable' in m_.functions:
+            isit = m_.functions['is_iterable']
+    if isit is None:
+        raise AnalysisError('anchor-lost function=is_iterable')
+    prm = isit.params[0] if isit.params else None
+    calls_iter = any(isinstance(n, ast.Call) and isinstance(n.func, ast.Name) and n.func.id == 'iter' and n.args and isinstance(n.args[0], ast.Name) and
+                     n.args[0].id == prm for n in ast.walk(isit.node))
+    narrowing = [n for n in ast.walk(isit.node) if isinstance(n, ast.Call) and isinstance(n.func, ast.Name) and n.func.id in ('isinstance', 'issubclass', 'type', 'hasattr')]
+    okm = calls_iter and not narrowing
+    cm2.instance('is_iterable(x) is "iter(x) does not raise TypeError", with no restriction to particular types', isit.qualname, okm)
+    cm2.evaluations += 1
+    if not okm:
+        res.add(Finding('C02', 'C02.m', 'R-DECISION', isit.file, isit.qualname, (narrowing[0].lineno if narrowing else isit.node.lineno),
+                        norm(narrowing[0])[:100] if narrowing else 'is_iterable',
+                        'is_iterable no longer means "can be iterated": fallback aliases given as a set, frozenset, dict view or generator are treated '
+                        'as "no fallback aliases", so an entry recorded under a fallback alias is answered by the missing-key policy instead'))
     return res
 
 
